@@ -80,6 +80,17 @@ Theorem C12_conformant : forall c rest fuel, Inv c -> (lenN (data (cdata c)) < 2
            (fst (pc_write c) ++ rest) = FOk (pabs c) rest.
 Proof. exact conformance. Qed.
 
+(* KNOWN FINDING C12-withdata-wide-indirect: save data of a block section with more than 256 distinct
+   states in the vanilla save layout (palette + 9..15-bit indices) denotes an array for the
+   specification, but NewStatesPaletteContainerWithData takes every width above 8 for direct ids and
+   panics on the data length (the library has no indirect palette wider than 8 bits) *)
+Theorem C12_with_data_wide_refuted :
+  let pat := map Z.of_nat (seq 0 300) in
+  let data := repeat 0%N 586 in
+  (exists a, spec_saved 9 4096 pat data = Some a /\ length a = 4096%nat) /\
+  pc_with_data (mkCfg KStates 15) 4096 data pat = RPanic pNew.
+Proof. exact with_data_wide_refuted. Qed.
+
 (* the reader is fragmentation-proof (feeds C09) *)
 Theorem C12_pal_read_robust : forall fuel p, robust (pal_read fuel p).
 Proof. exact pal_read_robust. Qed.
@@ -128,4 +139,5 @@ Print Assumptions C12_copy_never_overflows.
 Print Assumptions C12_hash_is_linear.
 Print Assumptions C12_wire.
 Print Assumptions C12_conformant.
+Print Assumptions C12_with_data_wide_refuted.
 Print Assumptions C12_pal_read_robust.
